@@ -106,14 +106,16 @@ theorem setNorms_setNorms_self (d : ProblemData α) (nq nb : Option α) :
 /-- [S] **the cached norms are refreshed.**  If the caches of the data `d` are valid — each one absent or
 holding what `get_normq` / `get_normb` recompute from `d` (`NormsAgree`) — the object rebuilt from `d`
 WITHOUT caches (so that `solve()` recomputes both norms from the final `q̂, b̂` and the frozen
-`D⁻¹, E⁻¹, c`) exists, and `solve()` on the object rebuilt from `d` itself is `solve()` on it, with the
-caches put back in the final state: same error, same solution, same trajectory. -/
+`D⁻¹, E⁻¹, c`) exists, and `solve()` on the object rebuilt from `d` itself IS `solve()` on it: same
+error, same solution, same trajectory, same final state — the caches of the final state included, both
+solves leave them filled with the common answers of `get_normq` / `get_normb`.  (Until round 8, when the
+model's `solve()` did not store the caches, the final states agreed only up to the caches.) -/
 theorem rebuilt_norms_refreshed (d : ProblemData α) (st : Settings α) (perm : Array Nat)
     (sol : Unscale.Solution α) {R : Solver α} (hR : Solver.rebuilt d st perm sol = .ok R)
     (h : NormsAgree (d.setNorms none none) d.normq d.normb) :
     ∃ R', Solver.rebuilt (d.setNorms none none) st perm sol = .ok R' ∧
       R = R'.setNorms d.normq d.normb ∧
-      R.solve st = (R'.solve st).map (fun r => { r with S := r.S.setNorms d.normq d.normb }) := by
+      R.solve st = R'.solve st := by
   unfold Solver.rebuilt Solver.rebuiltWith at hR ⊢
   obtain ⟨S, hS, hR⟩ := bind_ok_inv hR
   cases hR
